@@ -77,7 +77,16 @@ def records_of(calc, tag, settings=None):
                                 "dev": None if b is None or b.shape != a.shape else float(numpy.nanmax(numpy.abs(a - b)) / (numpy.nanmax(numpy.abs(a)) or 1.0))})
                     break
     k0 = calc.modulus_keys[0]
-    add("field", "attr:c%d%ds" % k0.voigt, getattr(vb, "c%d%ds" % k0.voigt), getattr(pb, "c%d%ds" % k0.voigt))
+    # attribute-style names: both tensors of one component (adiabatic first for the first key, isothermal first for the second), and the
+    # bare name (= adiabatic)
+    k1 = calc.modulus_keys[1] if len(calc.modulus_keys) > 1 else k0
+    for kk, order in ((k0, ("s", "t", "")), (k1, ("t", "s", ""))):
+        for suf in order:
+            nm = "c%d%d%s" % (*kk.voigt, suf)
+            try:
+                add("field", "attr:" + nm, getattr(vb, nm), getattr(pb, nm))
+            except AttributeError:
+                pass
     for n in NAMES:
         add("field", n, getattr(vb, n), getattr(pb, n))
     add("pressures", "pressures", vb.pressures * G, numpy.asarray(pb.pressures) * G)
